@@ -25,5 +25,7 @@ Spec == Init /\ [][Next]_<<stage, f, q>>
 WsplitOk == q.op = "wsplit" => WrapVerdict([j \in 1..Len(ImplWsplit(f, q.c)) |-> Cells(ImplWsplit(f, q.c)[j])], Cells(f), q.c) = "ok"
 WsliceOk == q.op = "wslice" =>
    LET rc == Cells(ImplWslice(f, q.a, q.b))
-   IN Cols(rc) = AbsWsliceCols(Cells(f), q.a, q.b) /\ IsSubseq(ZeroCells(rc), ZeroCells(Cells(f)))
+       strip(zs) == [k \in 1..Len(zs) |-> <<zs[k][1], Disp(zs[k][2])>>]
+   IN /\ Cols(rc) = AbsWsliceCols(Cells(f), q.a, q.b) /\ IsSubseq(ZeroCells(rc), ZeroCells(Cells(f)))
+      /\ IsSubseq(strip(ZeroMust(f, q.a, q.b)), ZeroCells(rc)) /\ IsSubseq(ZeroCells(rc), strip(ZeroMay(f, q.a, q.b)))
 =============================================================================
